@@ -327,6 +327,48 @@ func runC09(c *Ctx) {
 	// ---------------------------------------------------------------- J3
 	c.Rule("C09.J3", "ALWAYS-WITH+PROVENANCE", "the account journal and the validator journal, and their two revision lists, are one mechanism: a function that assigns one of a pair assigns the other on the same paths, and a truncation st.F = st.F[:i] uses an index found by searching the same list F")
 	c.Min(6)
+	// Snapshot hands out a fresh revision on every path
+	{
+		sn := w.Fn(statePkg, "StateDB", "Snapshot")
+		nextF := w.Field(statePkg, "StateDB", "nextRevisionId")
+		var need [][]ssa.Instruction
+		for _, fld := range []*types.Var{w.Field(statePkg, "StateDB", "validRevisions"), w.Field(statePkg, "StateDB", "valValidRevisions"), nextF} {
+			var st []ssa.Instruction
+			for _, x := range withSmallHelpers(sn) {
+				for _, fw := range fieldWrites(x) {
+					if fw.Field == fld && fw.Kind == "store" {
+						st = append(st, fw.Instr)
+					}
+				}
+			}
+			need = append(need, st)
+		}
+		nRet, bad := 0, 0
+		for _, b := range sn.Blocks {
+			r, ok := b.Instrs[len(b.Instrs)-1].(*ssa.Return)
+			if !ok || b == sn.Recover {
+				continue
+			}
+			nRet++
+			fresh := false
+			if f, _ := loadedField(stripConvNoBind(r.Results[0])); f == nextF {
+				fresh = true
+			}
+			all := true
+			for _, st := range need {
+				if len(st) == 0 || !mustPassBefore(r, st) {
+					all = false
+				}
+			}
+			if !fresh || !all {
+				bad++
+			}
+		}
+		{
+			c.sites += nRet
+			c.Check(fname(sn)+"#fresh-revision-on-every-path", sn.Pos(), nRet > 0 && bad == 0, ifelse(nRet > 0 && bad == 0, "every return hands out the id read from nextRevisionId after raising it and appending a revision to BOTH lists", fmt.Sprintf("%d of %d returns of Snapshot hand out an id without a new revision in both lists (e.g. an earlier revision's id when the account journal has not grown): the validator journal may have grown in between, and reverting to the inner snapshot also undoes validator, statistics and withdraw-queue changes made before it", bad, nRet)))
+		}
+	}
 	pairs := [][2]*types.Var{
 		{w.Field(statePkg, "StateDB", "journal"), w.Field(statePkg, "StateDB", "validatorJournal")},
 		{w.Field(statePkg, "StateDB", "validRevisions"), w.Field(statePkg, "StateDB", "valValidRevisions")},
@@ -383,6 +425,8 @@ func runC09(c *Ctx) {
 				if good && sl.High != nil {
 					if n, isC := constInt(sl.High); isC && n == 0 {
 						// reset
+					} else if bo, isArith := stripConvNoBind(sl.High).(*ssa.BinOp); isArith {
+						good, why = false, "is computed ("+bo.Op.String()+") from the position found instead of being that position: the reverted revision itself stays valid (or a valid one is cut)"
 					} else {
 						good, why = truncIndexSearchesField(sl.High, f, twin[f])
 					}
